@@ -120,6 +120,7 @@ def observe(ctx: Ctx, book: UidBook, names: list[str], step_assigned: dict,
             what: str) -> bool:
     """Quiescent point: STATUS + dump of every mailbox."""
     obs = ctx.clients[OBS]
+    ctx.quiesce()
     new_keys = {}
     for name in names:
         c = ctx.run_step({'actions': [{'sess': OBS, 'kind': 'status',
@@ -207,6 +208,9 @@ def run_uids(case: dict, trace: bool = False) -> dict:
                             src_tokens[act['sess']] = dict(
                                 book.tokens.get(key, {}))
             cmds = ctx.run_step(step, i)
+            # commands stalled past the horizon (extlock, lock_stall) finish
+            # before the observer looks
+            ctx.quiesce()
             for cl in ctx.clients.values():
                 cl.pending.clear()
             for act in step['actions']:
